@@ -639,7 +639,15 @@ class Interp:
             obj = obj.seq
         if isinstance(obj, dict):
             if S.is_sym(idx):
-                raise Unsupported('symbolic key into concrete dict')
+                # symbolic key into a concrete dict: case split on the keys
+                for k2, v2 in obj.items():
+                    if S.is_sym(k2):
+                        continue
+                    if self.branch(S.as_bool_term(S.equal(idx, k2))):
+                        return v2
+                if self.spec:
+                    return TVal.fresh('undef')
+                self.raise_('KeyError', idx, node=node)
             if idx not in obj:
                 self.raise_('KeyError', idx, node=node)
             return obj[idx]
@@ -758,6 +766,8 @@ class Interp:
 
     def call(self, fn, args, kwargs, node=None):
         if isinstance(fn, Model):
+            from . import models as _m
+            _m._CUR[0] = self
             try:
                 if fn.needs_interp:
                     return fn.fn(self, node, *args, **kwargs)
